@@ -40,6 +40,14 @@ impl<'t> World<'t> {
             self.push_obs(ci, st.op.name(), Obs::Nothing);
             return Ok(());
         }
+        if matches!(st.op, IsEmpty | GetString | StartChar | StartClass | Compile | TryCompile | Closure)
+            && (info.cost > COST_CAP || info.big || !self.searchable(mi, e))
+        {
+            // legitimately expensive (e.g. a loop counter of 50 000 means 50 000 states): not requested
+            self.bump("heavy_term_queries_skipped");
+            self.push_obs(ci, st.op.name(), Obs::Nothing);
+            return Ok(());
+        }
         match st.op {
             StrInRe => self.q_str_in_re(ci, st, e, hi),
             IsEmpty => {
@@ -1155,7 +1163,7 @@ impl<'t> World<'t> {
                 let hi = self.handle(ci, st.a[0]);
                 let e = self.clients[ci].pool[hi].re;
                 let info = self.info(mi, e);
-                if info.alien || info.big {
+                if info.alien || info.big || info.cost > COST_CAP || !self.searchable(mi, e) {
                     self.push_obs(ci, st.op.name(), Obs::Nothing);
                     return Ok(());
                 }
@@ -1201,7 +1209,7 @@ impl<'t> World<'t> {
                 let hi = self.handle(ci, st.a[0]);
                 let e = self.clients[ci].pool[hi].re;
                 let info = self.info(mi, e);
-                if info.alien || info.big {
+                if info.alien || info.big || info.cost > COST_CAP || !self.searchable(mi, e) {
                     self.push_obs(ci, st.op.name(), Obs::Nothing);
                     return Ok(());
                 }
